@@ -219,14 +219,35 @@ fn main() {
             let _ = rayon::ThreadPoolBuilder::new().num_threads(n).build_global();
         }
     }
+    // checks that are repeated in the build with debug assertions on (debug_assert!, cfg(debug_assertions));
+    // C01 does so itself, C14 / C16 / C18 / C20 are about builds, generated crates and tables
+    const DBG_IDS: &[&str] = &["C02", "C03", "C04", "C05", "C06", "C07", "C08", "C09", "C10", "C11", "C12", "C13", "C15", "C17", "C19"];
+    if submode && args[2] == "--dbg-child" {
+        let st = (p.run)(&cfg);
+        props::c01::dbg_child(&st);
+        std::process::exit(0);
+    }
+    let dbg_routed = DBG_IDS.contains(&id.as_str());
+    let base_replay: fn(&serde_json::Value, &mut Stats) = p.replay;
+    let id2 = id.clone();
+    let routed = move |case: &serde_json::Value, st: &mut Stats| {
+        if dbg_routed && !cfg!(debug_assertions) && case.get("build").and_then(|k| k.as_str()) == Some(props::c01::DBG_TAG) {
+            props::c01::replay_in_dbg_build(&id2, case, st);
+        } else {
+            base_replay(case, st);
+        }
+    };
     let code = if args[2] == "--replay" {
         let Some(path) = args.get(3) else {
             eprintln!("--replay needs a path");
             std::process::exit(2);
         };
-        do_replay(&cfg, path, &p.replay)
+        do_replay(&cfg, path, &routed)
     } else {
         let mut st = (p.run)(&cfg);
+        if dbg_routed && std::env::var("VERIF_DBG").map_or(true, |v| v != "0") {
+            st = props::c01::with_dbg_build(&cfg, &id, "--dbg-child", st);
+        }
         // thorough tier: coverage-guided campaign on the same oracle (DESIGN.md 3.8)
         let target = id.to_lowercase();
         let fuzz_on = cfg.tier == Tier::Thorough || std::env::var("VERIF_FUZZ").map_or(false, |v| v == "1");
@@ -234,7 +255,7 @@ fn main() {
             let runs: u64 = std::env::var("VERIF_FUZZ_RUNS").ok().and_then(|v| v.parse().ok()).unwrap_or(if target == "c01" { 400_000 } else { 1_500_000 });
             st = st.merge(vcheck::fuzz::campaign(&cfg, &target, runs, 8));
         }
-        finish(&cfg, st, p.rule, p.assumptions, &p.replay)
+        finish(&cfg, st, p.rule, p.assumptions, &routed)
     };
     std::process::exit(code);
 }
